@@ -156,6 +156,20 @@ Theorem C39_refuted_optional_mismatch :
   C39_known (mkC39 (Ev V2 LE tce_default w6_t1 w6_t2 (VData w6_x)) (OAs (Ok true))) = 6%N.
 Proof. exact witness_optional_mismatch. Qed.
 
+(* 7: compile-time (derive) reader types: the decoded DynamicData is the projection, but the
+   typed sample built from it is None when the reader type has a new plain member *)
+Theorem C39_refuted_typed_sample_none :
+  struct_assignable tce_default (cto_of w7_t1) (cto_of w7_t2) = Ok true /\
+  flat_desc w7_t1 = true /\ flat_desc w7_t2 = true /\ evolves tce_default w7_t1 w7_t2 = true /\
+  (exists bs, encode V2 LE (ty_of w7_t2) (VData w7_x) = Ok bs /\
+              decode (ty_of w7_t1) bs = Ok (VData [(0, VP KI32 5)]) /\
+              projects w7_t1 w7_x [(0, VP KI32 5)] = true /\
+              typed_sample w7_t1 [(0, VP KI32 5)] = None) /\
+  typed_sample (mkAD Appendable 3 [am 0 0 (APrim PI32); mkAM (mi 1) 1 true (APrim PI32)]) [(0, VP KI32 5)]
+    = Some [(0, VP KI32 5); (1, VP KI32 0)] /\
+  C39_known (mkC39 (Ty V2 LE tce_default w7_t1 w7_t2 (VData w7_x)) (OAs (Ok true))) = 7%N.
+Proof. exact witness_typed_none. Qed.
+
 (* the integer-widening candidate of DESIGN.md (D35) is not present in this tree *)
 Theorem C39_no_integer_widening :
   struct_assignable tce_default (mkST 1 1 [mkSM 0 1 0 TkInt32]) (mkST 1 1 [mkSM 0 1 0 TkInt64]) = Ok false /\
@@ -193,4 +207,5 @@ Print Assumptions C39_refuted_nested_dheader.
 Print Assumptions C39_refuted_member_id_u16.
 Print Assumptions C39_refuted_todo.
 Print Assumptions C39_refuted_optional_mismatch.
+Print Assumptions C39_refuted_typed_sample_none.
 Print Assumptions C39_no_integer_widening.
